@@ -626,7 +626,9 @@ impl fmt::Display for CellBuffer {
 impl From<&str> for CellBuffer {
     fn from(input: &str) -> Self {
         let css_styles = if let Some(loc) = input.find("# Legend:") {
-            if let Ok(css_styles) = parser::parse_css_legend(&input[loc..]) {
+            // the legend is read with the same line ends as the drawing: CRLF is LF
+            let legend = input[loc..].replace("\r\n", "\n");
+            if let Ok(css_styles) = parser::parse_css_legend(&legend) {
                 Some((loc, css_styles))
             } else {
                 None
